@@ -128,12 +128,38 @@ def die_with_parent():
 
 
 
-def forked(fn, args=(), alarm=60):
+SOFT_STALL_S = 15  # a run takes milliseconds; after this many seconds it is declared stuck
+
+
+def _raise_stall(signum, frame):
+    raise SimBudgetExceeded("wall-clock backstop: the call did not return")
+
+
+def wall_stall(exc):
+    """True when exc is the wall-clock backstop; also disarms it so that the
+    harness can finish reporting without being interrupted again."""
+    if isinstance(exc, SimBudgetExceeded) and str(exc).startswith("wall-clock backstop"):
+        try:
+            signal.setitimer(signal.ITIMER_REAL, 0)
+        except Exception:
+            pass
+        return True
+    return False
+
+
+def forked(fn, args=(), alarm=60, soft=None):
     """Run fn(*args) in a forked child; return its JSON-able result.
 
     The child inherits the pristine zygote state.  A crash, a kill by the
     backstop alarm or an unparsable answer is a *harness error* result, never
-    a pass and never a violation."""
+    a pass and never a violation.  With ``soft`` set, the child first gets a
+    SimBudgetExceeded raised inside whatever is running after that many seconds
+    (and again every second, in case library code swallows it): engines report
+    that as the ``stall`` clause of the property, with the op list as replay.
+    This backstop is wall-clock based -- the deterministic budgets (seam-call
+    caps, line budget) come first; it only exists so that a change that makes
+    the library spin without touching a seam yields a violation with a replay
+    instead of a harness error."""
     r, w = os.pipe()
     pid = os.fork()
     if pid == 0:
@@ -141,8 +167,12 @@ def forked(fn, args=(), alarm=60):
         try:
             os.close(r)
             die_with_parent()
-            signal.signal(signal.SIGALRM, signal.SIG_DFL)
-            signal.alarm(alarm)
+            if soft:
+                signal.signal(signal.SIGALRM, _raise_stall)
+                signal.setitimer(signal.ITIMER_REAL, soft, 1.0)
+            else:
+                signal.signal(signal.SIGALRM, signal.SIG_DFL)
+                signal.alarm(alarm)
             import gc
 
             gc.disable()  # cyclic GC timing depends on the parent's allocation history
@@ -163,7 +193,20 @@ def forked(fn, args=(), alarm=60):
             os._exit(code)
     os.close(w)
     chunks = []
+    import select
+
+    hard = time.time() + (alarm + (soft or 0) + 30)
     while True:
+        left = hard - time.time()
+        if left <= 0:
+            try:
+                os.kill(pid, signal.SIGKILL)
+            except OSError:
+                pass
+            break
+        ready, _, _ = select.select([r], [], [], min(left, 5.0))
+        if not ready:
+            continue
         c = os.read(r, 1 << 16)
         if not c:
             break
@@ -268,7 +311,7 @@ def minimise(engine, prop, program, clause, sig, budget=1500):
         tests[0] += 1
         cand = dict(program)
         cand["ops"] = ops
-        res = forked(engine.execute, (prop, cand))
+        res = forked(engine.execute, (prop, cand), soft=SOFT_STALL_S)
         return _same_failure(res, clause, sig)
 
     ops = list(program["ops"])
